@@ -658,6 +658,6 @@ func main() {
 		Gen:    gen,
 		Exec:   exec,
 		Corpus: corpus(),
-		N:      map[string]int{"quick": 120, "thorough": 6000},
+		N:      map[string]int{"quick": 120, "thorough": 3000},
 	})
 }
